@@ -231,9 +231,9 @@ def obligations(tier, seed):
     # worker threads): two callback threads
     for be, ra, uw in [("stub_noabort", "list", True), ("stub_cb", "list", False), ("stub_noabort", "generator_unordered", True)]:
         obs.append({"name": "fail2cb/%s/%s/with=%s" % (be, ra, uw), "fn": "ob_fail", "mode": "S",
-                    "params": {"backend": be, "return_as": ra, "use_with": uw, "K": 1, "n0": 5, "pre_dispatch": 2,
+                    "params": {"backend": be, "return_as": ra, "use_with": uw, "K": 1, "n0": 4, "pre_dispatch": 2,
                                "cb_threads": 2}, "timeout": 900,
-                    "bounds": "two concurrent callback threads: call 0 (5 tasks) fails at any index; one pre-emption anywhere; "
+                    "bounds": "two concurrent callback threads: call 0 (4 tasks) fails at any index; one pre-emption anywhere; "
                               "2x2 picks (completion and thread choices); then a 4-task call"})
     for be, ra in [("threading", "list"), ("loky", "generator"), ("stub_legacy", "list"), ("stub_noabort", "list")]:
         obs.append({"name": "iterfail/%s/%s" % (be, ra), "fn": "ob_iterfail", "mode": "S",
